@@ -40,6 +40,7 @@ type e2eSpec struct {
 	Addrs    int      `json:"addrs"` // 1 = lo with 127.0.0.1 only; n>1 adds n-1 extra IPv4 addresses (and keeps ::1 when V6)
 	V6       bool     `json:"v6"`
 	JoinEnv  []string `json:"join_env,omitempty"`
+	HostEnv  []string `json:"host_env,omitempty"`
 	TimeoutS int      `json:"timeout_s"`
 	BinDir   string   `json:"bindir"`
 	WorkDir  string   `json:"workdir"`
@@ -118,6 +119,7 @@ func e2eChild(args []string) int {
 	host := exec.Command(filepath.Join(spec.BinDir, "thru"), hargs...)
 	host.Stdout, host.Stderr = hf, hf
 	host.Stdin = nil
+	host.Env = append(os.Environ(), spec.HostEnv...)
 	if err := host.Start(); err != nil {
 		res.SetupErr = "thru host: " + err.Error()
 		return 0
@@ -330,6 +332,7 @@ func sessionOK(r e2eResult) bool {
 }
 
 type e2eCase struct {
+	HostEnv  []string `json:"host_env,omitempty"`
 	ID       string   `json:"id"`
 	Shape    string   `json:"shape"`
 	Seed     uint64   `json:"seed"`
@@ -371,7 +374,7 @@ func runE2ECases(e *Env, cases []e2eCase, par int, judge func(c e2eCase, r e2eRe
 		c := cases[i]
 		src, out, tree, base := e2eTree(e, c.Seed, c.Shape, c.CS, 300<<10)
 		defer os.RemoveAll(base)
-		r := runSession(e, e2eSpec{ID: c.ID, Src: src, Out: out, HostArgs: c.HostArgs, JoinArgs: c.JoinArgs, Stdin: "y\n", Addrs: c.Addrs, V6: c.V6, TimeoutS: 45})
+		r := runSession(e, e2eSpec{ID: c.ID, Src: src, Out: out, HostArgs: c.HostArgs, JoinArgs: c.JoinArgs, Stdin: "y\n", Addrs: c.Addrs, V6: c.V6, TimeoutS: 45, HostEnv: c.HostEnv})
 		judge(c, r, tree, out)
 	})
 }
@@ -465,6 +468,21 @@ func runC09E2E(e *Env) {
 	cases := genE2ECases(e, e.Pick(9, 60), "C09e2e", true)
 	for i := range cases {
 		cases[i].Shape = []string{"onefile", "nested", "manysmall"}[i%3]
+		// every second session: the sender's first completing dial attempts are
+		// held for a moment at the ice.dial.succeeded hook, so that the receiver
+		// has accepted several connections before the sender has chosen its
+		// winner (the winner is then not the first one the receiver accepted)
+		if i%2 == 1 {
+			k := 2 + i%3
+			spec := ""
+			for j := 1; j <= k; j++ {
+				spec += fmt.Sprintf("ice.dial.succeeded=sleep(%d)@%d;", 300+100*(i%4), j)
+			}
+			cases[i].HostEnv = []string{"VERIFHOOK=" + spec}
+			if cases[i].Addrs < 3 {
+				cases[i].Addrs = 5
+			}
+		}
 	}
 	runE2ECases(e, cases, 8, func(c e2eCase, r e2eResult, tree vk.Tree, out string) {
 		e.R.Eval()
@@ -472,7 +490,10 @@ func runC09E2E(e *Env) {
 			e.R.Inconcl(c.ID + ": " + r.SetupErr)
 			return
 		}
-		e.R.Distinct(fmt.Sprintf("addrs%d/v6%v/%s", c.Addrs, c.V6, strings.Join(c.HostArgs, " ")))
+		e.R.Distinct(fmt.Sprintf("addrs%d/v6%v/%s/steered=%v", c.Addrs, c.V6, strings.Join(c.HostArgs, " "), len(c.HostEnv) > 0))
+		if len(c.HostEnv) > 0 {
+			e.R.Count("sessions_with_held_dial_completions")
+		}
 		if sessionOK(r) {
 			e.R.Count("completed")
 			if r.DurMs > 0 {
